@@ -1329,6 +1329,12 @@ func (w *responseWriter) close() {
 }
 
 func (w *responseWriter) writeEnd(end *responseEnd, wasInHeaders bool) {
+	if !wasInHeaders && w.respMeta != nil {
+		// Trailers the handler has stored so far are either already part of end
+		// (normal completion) or superseded by it (error): they must not be sent
+		// next to the ones written below.
+		httpExtractTrailers(w.Header(), w.respMeta.pendingTrailerKeys)
+	}
 	trailers := w.op.client.protocol.encodeEnd(w.op, end, w.delegate, wasInHeaders)
 	httpMergeTrailers(w.Header(), trailers)
 	w.endWritten = true
